@@ -20,7 +20,7 @@ def selftest(tier):
 
 def obligations(tier, seed):
     import random
-    t = 400 if tier == 'quick' else 1800
+    t = 900 if tier == 'quick' else 2400
     rnd = random.Random(seed)
     n = len(skeletons.TEMPLATES)
     k2s = list(range(n))
@@ -30,8 +30,8 @@ def obligations(tier, seed):
     for i, k2 in enumerate(k2s):
         k1s = [i % 3] if tier == 'quick' else range(3)
         for k1 in k1s:
-            hist.append(['k1 == %d' % k1, 'k2 == %d' % k2, 'len(A) == 3 and len(B) == 3 and len(C) == 3 and len(P) == 3',
-                         '"." not in A and "." not in B and "." not in C', 'rg == %s' % (i % 2 == 0)])
+            hist.append(['k1 == %d' % k1, 'k2 == %d' % k2, 'len(A) == 3 and len(P) == 3',
+                         '"." not in A', 'rg == %s' % (i % 2 == 0)])
     order = []
     for i, k in enumerate(k2s[:6] if tier == 'quick' else k2s):
         order.append(['k == %d' % k, 'len(A) == 3 and len(B) == 3 and len(C) == 3', '"." not in A and "." not in B and "." not in C',
